@@ -1,7 +1,7 @@
 (* Theorem B, marker discipline: closing the recursion knot and the top-level statement.
    OutOfFuel satisfies every WB triple, so the knot closes by plain induction on the fuel;
    that fuel is never exhausted is theorem A (Proofs/GrammarA.v). *)
-From Coq Require Import NArith Arith List Bool Lia.
+From Coq Require Import NArith ZArith Arith List Bool Lia.
 From OQ3 Require Import gen.Kinds Model.Parser Model.Grammar Proofs.MarkerB Proofs.WP Proofs.GrammarA
   Proofs.GrammarB0 Proofs.GrammarB1 Proofs.GrammarB2 Proofs.GrammarB3 Proofs.GrammarB4.
 Import ListNotations.
@@ -28,9 +28,10 @@ Qed.
 
 Lemma init_liveok : LiveOK init_state /\ NoDup (live init_state).
 Proof.
-  split; [split|constructor].
+  split; [split; [|split]|constructor].
   - intros m Hm; destruct Hm.
   - intros i d [k H]. unfold slot in H. cbn in H. discriminate.
+  - split; [intros [|j]; cbn; lia|reflexivity].
 Qed.
 
 (* the grammar never trips a marker assertion and returns with no live marker and with every
@@ -46,7 +47,7 @@ Proof.
   destruct init_liveok as [HL HN].
   pose proof (source_file_B inp _ (tie_good inp n) init_state HL HN) as H.
   unfold WB in H. destruct (source_file inp (tie inp n) init_state) as [a s|w|]; auto.
-  destruct H as [[[_ HE] [Hl _]] _]. split; [exact Hl|exact HE].
+  destruct H as [[[_ [HE _]] [Hl _]] _]. split; [exact Hl|exact HE].
 Qed.
 
 (* ---------------- event::process ---------------- *)
